@@ -411,6 +411,13 @@ func (parameter *Parameter) Validate(ctx context.Context, opts ...ValidationOpti
 				}
 			}
 		}
+	} else if vo := getValidationOptions(ctx); !vo.examplesValidationDisabled {
+		// no schema to check the values against: the example objects themselves must still be valid
+		for _, k := range componentNames(parameter.Examples) {
+			if err := parameter.Examples[k].Validate(ctx); err != nil {
+				return fmt.Errorf("%s: %w", k, err)
+			}
+		}
 	}
 
 	return validateExtensions(ctx, parameter.Extensions)
